@@ -41,6 +41,12 @@ def cases(tier, rng, boost=1):
     yield _mk('gauss', [[1.0, 2.0], [3.0, -1.0], [0.5, 0.25], [4.0, 4.0]], sigma=2.0, prev_sigma=None, src='corpus')
     yield _mk('gauss', [[v] for v in [0.0, 1.0, 0.0, 0.0, 2.0, 0.0, 0.0, 0.0, 1.0]], sigma=2.1, prev_sigma=2.0, src='corpus', one_d=True)
     yield _mk('rm', [[1.5], [1e17], [1.25], [1.75], [2.0]], window=1, entry='filtering', src='corpus')
+    # one huge value early, small values after it: entry i is the mean over ITS window only — an implementation through running totals of the whole series
+    # carries the rounding error of the early value into every later entry
+    spike = [[0.5], [0.25], [0.75], [1073741824.0]] + [[((k * 37) % 64) / 64.0] for k in range(40)]
+    for w_ in (2, 3, 5, 8):
+        yield _mk('rm', spike, window=w_, entry='filtering', src='corpus')
+    yield _mk('rm', spike, window=4, entry='utils', src='corpus')
     n = {'quick': 300, 'thorough': 4000, 'search': 1000}[tier] * boost
     for i in range(n):
         r = rng.random()
